@@ -288,7 +288,7 @@ func genLinCase(rt *rapid.T) LinCase {
 
 var c14 = &h.Campaign[LinCase]{
 	Prop: "C14", Sub: "linearizability",
-	Rule:  "rapid: small concurrent programs, 2-4 clients x 2-5 calls (put/activate/delete-version/delete/get/get-version/info/list) on names {a (weighted), b} with a 3-value pool and generated yields, started from a barrier on a real database file, at db.DB or through concurrent mux.ServeHTTP; a final sequential full dump is appended; each recorded history is decided by porcupine's exhaustive linearizability search against the map model; runs under the race detector; non-trivial = the recorded intervals show >= 2 overlapping calls of different clients on the same name (or a list), at least one of them a mutation; distinct by program (schedules are sampled, so the same program may be explored under several interleavings)",
+	Rule:  "rapid: small concurrent programs, 2-4 clients x 2-5 calls (put/activate/delete-version/delete/get/get-version/info/list) on names {a (weighted), b} with a 3-value pool and generated yields, started from a barrier on a real database file, at db.DB or through concurrent mux.ServeHTTP; the audit device really reads and keeps every record and yields the processor 0-3 times per write/sync (every record must be one complete line, no id twice); HTTP clients share ONE server instance; a final sequential full dump is appended; each recorded history is decided by porcupine's exhaustive linearizability search against the map model; runs under the race detector; non-trivial = the recorded intervals show >= 2 overlapping calls of different clients on the same name (or a list), at least one of them a mutation; distinct by program (schedules are sampled, so the same program may be explored under several interleavings)",
 	Quick: 1500, Thorough: 200000,
 	Gen: genLinCase,
 	Run: runC14,
@@ -299,7 +299,7 @@ var c14 = &h.Campaign[LinCase]{
 // conditional gets and activations of one secret that starts with several versions.
 var c09conc = &h.Campaign[LinCase]{
 	Prop: "C09", Sub: "concurrent",
-	Rule:  "rapid: 2-4 clients x 2-6 calls, mostly conditional gets (V in 1..4) and activations (also puts, get) on one secret that first receives three versions; each recorded history is decided by porcupine against the map model (a conditional get may answer not-modified only if some linearization point has active == V, and may never return version V itself); under the race detector; non-trivial = overlapping calls on the name with at least one mutation; distinct by program",
+	Rule:  "rapid: 2-4 clients x 2-6 calls, mostly conditional gets (V in 1..4) and activations (also puts, get) on one secret that first receives three versions, all clients talking to one server instance (or db.DB); each recorded history is decided by porcupine against the map model (a conditional get may answer not-modified only if some linearization point has active == V, and may never return version V itself); under the race detector; non-trivial = overlapping calls on the name with at least one mutation; distinct by program",
 	Quick: 600, Thorough: 80000,
 	Gen: func(rt *rapid.T) LinCase {
 		c := LinCase{HTTP: rapid.IntRange(0, 1).Draw(rt, "http") == 0, AuditYield: rapid.SampledFrom([]int{0, 1, 3}).Draw(rt, "audityield")}
